@@ -62,6 +62,8 @@ func hasPointerField(ty types.Type) bool {
 
 // analyse: parameters written through; parameters compared with nil.  Returns true when something changed.
 func analyse(fi *funcInfo) (changed bool) {
+	curLimb = limbMode[fi.key]
+	defer func() { curLimb = false }()
 	defer func() {
 		if r := recover(); r != nil {
 			if _, ok := r.(fail); ok {
@@ -110,7 +112,16 @@ func nilCompared(info *types.Info, body ast.Node) map[*types.Var]bool {
 	return r
 }
 
+func modKey(pd string, limb bool) string {
+	if limb {
+		return pd + "#limb"
+	}
+	return pd
+}
+
 func translateFunc(fi *funcInfo) {
+	curLimb = limbMode[fi.key]
+	defer func() { curLimb = false }()
 	defer func() {
 		if r := recover(); r != nil {
 			if f, ok := r.(fail); ok {
@@ -123,10 +134,15 @@ func translateFunc(fi *funcInfo) {
 	t := newTr(fi, fi.pkg.TypesInfo)
 	t.opt = nilCompared(t.info, fi.decl.Body)
 	sig := fi.obj.Type().(*types.Signature)
+	namedPre := ""
 	for i := 0; i < sig.Results().Len(); i++ {
-		if sig.Results().At(i).Name() != "" {
-			t.fail(fi.decl, "named results")
+		if rv := sig.Results().At(i); rv.Name() != "" && rv.Name() != "_" {
+			t.namedRes = append(t.namedRes, rv)
+			namedPre += "let " + t.name(rv) + " : " + leanType(rv.Type()) + " := " + zeroValue(rv.Type()) + "\n"
 		}
+	}
+	if len(t.namedRes) != 0 && len(t.namedRes) != sig.Results().Len() {
+		t.fail(fi.decl, "partially named results")
 	}
 	ws := t.writesOf(fi.decl.Body)
 	for i, p := range fi.params {
@@ -180,23 +196,26 @@ func translateFunc(fi *funcInfo) {
 			return t.retTuple(nil)
 		},
 		retTerm: func(term string) string { return term }}
-	body := t.stmts(fi.decl.Body.List, k)
+	body := namedPre + t.stmts(fi.decl.Body.List, k)
 	doc := fmt.Sprintf("/-- `%s` (%s). -/\n", fi.key, filepath.Base(fset.Position(fi.decl.Pos()).Filename))
 	d := &leanDef{name: fi.lean, text: doc + head + "\n" + indent(body, 1) + "\n", deps: t.deps, pos: fi.decl.Pos()}
-	defsByPkg[fi.pkgdir] = append(defsByPkg[fi.pkgdir], d)
+	defsByPkg[modKey(fi.pkgdir, limbMode[fi.key])] = append(defsByPkg[modKey(fi.pkgdir, limbMode[fi.key])], d)
 	defByName[fi.lean] = d
 }
 
 func translateGlobal(k string) string {
 	g := globalInits[k]
 	lean := g.pkgdir + "_" + g.v.Name()
+	if curLimb {
+		lean = g.pkgdir + "l_" + g.v.Name()
+	}
 	globalDefs[k] = lean
 	t := newTr(&funcInfo{key: k, pkgdir: g.pkgdir, pkg: g.pkg}, g.pkg.TypesInfo)
 	val := t.expr(g.val)
 	pre := t.flush()
 	text := fmt.Sprintf("/-- package-level `var %s` of %s. -/\ndef %s : %s :=\n%s\n", g.v.Name(), g.pkgdir, lean, leanType(g.v.Type()), indent(pre+val, 1))
 	d := &leanDef{name: lean, text: text, deps: t.deps, pos: g.val.Pos()}
-	defsByPkg[g.pkgdir] = append(defsByPkg[g.pkgdir], d)
+	defsByPkg[modKey(g.pkgdir, curLimb)] = append(defsByPkg[modKey(g.pkgdir, curLimb)], d)
 	defByName[lean] = d
 	return lean
 }
@@ -240,6 +259,9 @@ func main() {
 						key = pd + ".init"
 					}
 					fi := &funcInfo{key: key, pkgdir: pd, decl: dd, pkg: p, obj: obj, lean: strings.ReplaceAll(key, ".", "_")}
+					if limbMode[key] {
+						fi.lean = pd + "l_" + strings.ReplaceAll(strings.TrimPrefix(key, pd+"."), ".", "_")
+					}
 					sig := obj.Type().(*types.Signature)
 					if sig.Recv() != nil {
 						fi.hasRecv = true
@@ -344,6 +366,17 @@ func main() {
 		}
 		b.WriteString("end I3.Gen.Go\n")
 		writeIfChanged(filepath.Join(out, pkgModule[pd]+".lean"), b.String())
+	}
+	for _, pd := range []string{"ff", "ffg"} {
+		var b strings.Builder
+		b.WriteString("-- GENERATED by tools/gengo (T6, limb mode) from /repo/" + pd + " — do not edit\n")
+		b.WriteString("import I3.Exec.Go\nimport I3.Exec.GoExt\n")
+		b.WriteString("set_option linter.unusedVariables false\nset_option maxRecDepth 4096\nnamespace I3.Gen.Go\n\n")
+		for _, d := range topo(defsByPkg[modKey(pd, true)]) {
+			b.WriteString(d.text + "\n")
+		}
+		b.WriteString("end I3.Gen.Go\n")
+		writeIfChanged(filepath.Join(out, limbModule[pd]+".lean"), b.String())
 	}
 	var b strings.Builder
 	b.WriteString("-- GENERATED by tools/gengo (T6) — do not edit\nnamespace I3.Gen.Go\n")
